@@ -460,4 +460,54 @@ theorem odsRowsOf_encoded (f : OdsFeatures) (rows : List (List Str))
     have ih' := ih (fun x hx => hsmall x (by simp [hx])) (fun x hx => hcells x (by simp [hx]))
     simp [odsRowsOf, odsRow_encodeRow f r 1 (hsmall r (by simp)) (hcells r (by simp)), ih']
 
+/-- rows that are direct children of the table are found as they are -/
+theorem tableRowsIn_rows (f : OdsFeatures) (rows : List (List Str × Nat)) :
+    tableRowsIn (rows.map (fun p => encodeRow f p.1 p.2)) = rows.map (fun p => encodeRow f p.1 p.2) := by
+  induction rows with
+  | nil => rw [List.map_nil, tableRowsIn]
+  | cons p rest ih =>
+    rw [List.map_cons, tableRowsIn, ih]
+    have : tableRowsOf (encodeRow f p.1 p.2) = [encodeRow f p.1 p.2] := by
+      unfold encodeRow
+      rw [tableRowsOf]
+      simp
+    rw [this]; rfl
+
+theorem tableRowsIn_append (a b : List Xml) : tableRowsIn (a ++ b) = tableRowsIn a ++ tableRowsIn b := by
+  induction a with
+  | nil => rw [List.nil_append, tableRowsIn, List.nil_append]
+  | cons x xs ih => rw [List.cons_append, tableRowsIn, tableRowsIn, ih, List.append_assoc]
+
+theorem tableRowsOf_header (children : List Xml) :
+    tableRowsOf (.node "table:table-header-rows" [] none children none) = tableRowsIn children := by
+  rw [tableRowsOf]; simp
+theorem tableRowsOf_group (children : List Xml) :
+    tableRowsOf (.node "table:table-row-group" [] none children none) = tableRowsIn children := by
+  rw [tableRowsOf]; simp
+theorem tableRowsOf_plain (children : List Xml) :
+    tableRowsOf (.node "table:table-rows" [] none children none) = tableRowsIn children := by
+  rw [tableRowsOf]; simp
+
+theorem tableRowsIn_cons (x : Xml) (rest : List Xml) : tableRowsIn (x :: rest) = tableRowsOf x ++ tableRowsIn rest := by
+  rw [tableRowsIn]
+theorem tableRowsIn_nil : tableRowsIn [] = [] := by rw [tableRowsIn]
+
+/-- rows wrapped into header rows, outline groups and plain row groups are found in document order -/
+theorem tableRowsIn_groupRows (f : OdsFeatures) (rows : List (List Str × Nat)) :
+    tableRowsIn (groupRows (rows.map (fun p => encodeRow f p.1 p.2))) = rows.map (fun p => encodeRow f p.1 p.2) := by
+  have one : ∀ p : List Str × Nat, tableRowsOf (encodeRow f p.1 p.2) = [encodeRow f p.1 p.2] := by
+    intro p; unfold encodeRow; rw [tableRowsOf]; simp
+  match rows with
+  | [] => rw [List.map_nil]; unfold groupRows; exact tableRowsIn_nil
+  | [a] => exact tableRowsIn_rows f [a]
+  | [a, b] => exact tableRowsIn_rows f [a, b]
+  | a :: b :: c :: rest =>
+    have hrest := tableRowsIn_rows f rest
+    rw [List.map_cons, List.map_cons, List.map_cons]
+    unfold groupRows
+    rw [tableRowsIn_cons, tableRowsIn_cons, tableRowsIn_cons, tableRowsIn_nil, tableRowsOf_header, tableRowsOf_group, tableRowsOf_plain,
+      tableRowsIn_cons, tableRowsIn_nil, tableRowsIn_cons, tableRowsIn_cons, tableRowsIn_nil, tableRowsOf_group, tableRowsIn_cons, tableRowsIn_nil,
+      one a, one b, one c, hrest]
+    simp only [List.append_nil, List.cons_append, List.nil_append]
+
 end Cutplace
